@@ -165,7 +165,9 @@ func (v Fix128Value) MeteredString(
 func (v Fix128Value) ToInt() int {
 	// TODO: Maybe compute this without the use of `big.Int`
 	fix128BigInt := v.ToBigInt()
-	integerPart := fix128BigInt.Div(fix128BigInt, sema.Fix128FactorIntBig)
+	// Truncate toward zero, like the other fixed-point types.
+	// NOTE: `Div` implements Euclidean division, which rounds negative values away from zero.
+	integerPart := fix128BigInt.Quo(fix128BigInt, sema.Fix128FactorIntBig)
 
 	if !integerPart.IsInt64() {
 		panic(&OverflowError{})
